@@ -642,7 +642,7 @@ def loop_construct_items(tier):
     out = []
     for d, sql in LOOP_CONSTRUCTS:
         out.append((sql, d, tuple(LEVELS)))
-        for m in corpus.mutations(sql, d):
+        for m in corpus.mutations(sql, d, kinds=("delete", "trunc", "insert") if tier == "quick" else ("delete", "dup", "swap", "trunc", "insert")):
             out.append((m, d, lv))
     return list(dict.fromkeys(out))
 
